@@ -223,7 +223,18 @@ fn render(ty: &Ty, out: &mut String) {
 				} else {
 					write!(out, "{{\"name\":\"{}\",\"type\":", field_name(*f)).unwrap();
 				}
-				render(t, out);
+				// an UNKNOWN logical type must be ignored (the value is its underlying type); a primitive may also be
+				// written in its long form {"type": "..."}
+				match (f % 7, t) {
+					(3, Ty::Long) => out.push_str("{\"type\":\"long\",\"logicalType\":\"x-wall-clock-micros\"}"),
+					(3, Ty::Int) => out.push_str("{\"type\":\"int\",\"logicalType\":\"x-custom\",\"x-arg\":[1,2]}"),
+					(3, Ty::String) => out.push_str("{\"type\":\"string\",\"logicalType\":\"x-custom-text\"}"),
+					(3, Ty::Bytes) => out.push_str("{\"type\":\"bytes\",\"logicalType\":\"x-blob\"}"),
+					(4, Ty::Boolean) => out.push_str("{\"type\":\"boolean\"}"),
+					(4, Ty::Double) => out.push_str("{\"type\":\"double\"}"),
+					(4, Ty::Null) => out.push_str("{\"type\":\"null\"}"),
+					_ => render(t, out),
+				}
 				out.push('}');
 			}
 			out.push_str("]}");
